@@ -429,7 +429,13 @@ class ConfigLoader(BaseLoader):
 
     def loadResource(self, resource):
         sm = self.createSchemaMatcher()
-        self._parse_resource(sm, resource)
+        try:
+            self._parse_resource(sm, resource)
+        except RecursionError:
+            # every %include is a nested call of the parser; a chain of
+            # some two hundred resources exhausts the interpreter's stack
+            raise ZConfig.ConfigurationError(
+                "%include directives are nested too deeply", resource.url)
         result = sm.finish(), CompositeHandler(sm.handlers, self.schema)
         return result
 
